@@ -40,7 +40,7 @@ CONSTANTS Frac,        \* PenaltyFractionForDoubleSign (percent)
           Known,       \* TRUE: search past the known finding (vote kind not bound / no distinct-hash check)
           GenMode      \* "none" | "leaf"
 
-NV == 4
+NV == 7
 Unit == 10
 MaxAge == 3            \* MaxEvidenceExpiredIn of the fixture
 ExpelRounds == 8       \* ExpelledRoundForDoubleSign of the fixture
@@ -62,8 +62,24 @@ vars == <<vals, wq, pen, k, pending, last, all, hist>>
 V(tok, self, ro, dl) == [token |-> tok, stake |-> tok \div Unit, selfToken |-> self, selfStake |-> self \div Unit, ro |-> ro,
                          status |-> 1, expelled |-> FALSE, expelExp |-> 0, exists |-> TRUE, dl |-> dl]
 D(d, tok) == [d |-> d, token |-> tok, stake |-> tok \div Unit]
-InitVals == << V(1230, 1230, 0, <<>>), V(1050, 770, 2000, << D(2, 130), D(1, 150) >>), V(300, 300, 0, <<>>), V(2000, 2000, 0, <<>>) >>
-InitWq == << [v |-> 2, d |-> 0, fin |-> 230, done |-> 0], [v |-> 2, d |-> 1, fin |-> 100, done |-> 0] >>
+\* v1..v5 and v7 are genesis validators (tokens 1230, 1000, 300, 2000, 600, 400), v6 is created by a transaction.  At the end
+\* of the second period (block 8) two delegations to v2 and v6's creation take effect and v7's complete withdrawal removes
+\* it; at block 12 v5's complete withdrawal removes it, v2's partial withdrawal and a partial undelegation take effect.
+Gone == [V(0, 0, 0, <<>>) EXCEPT !.status = 0, !.exists = FALSE]
+InitVals == << V(1230, 1230, 0, <<>>), V(1050, 770, 2000, << D(2, 130), D(1, 150) >>), V(300, 300, 0, <<>>), V(2000, 2000, 0, <<>>),
+               Gone, [V(1500, 1500, 0, <<>>) EXCEPT !.status = 0], Gone >>
+InitWq == << [v |-> 7, d |-> 0, fin |-> 400, done |-> 0], [v |-> 5, d |-> 0, fin |-> 600, done |-> 0],
+             [v |-> 2, d |-> 0, fin |-> 230, done |-> 0], [v |-> 2, d |-> 1, fin |-> 100, done |-> 0] >>
+\* The two look-back validator sets of the evidence round (13), ordered by stake as the code orders them; the signer index of
+\* an evidence is a position in one of them.  Certificate votes are cast by the certificate committee, drawn from the
+\* certificate look-back set (the genesis set: ACoCHTFrequency is 32768); every other vote from the stake look-back set
+\* (block 9).  Between the two: the stake order changed (v2 above v1), v6 is new, v7 is gone.
+CertOrder  == <<4, 1, 2, 5, 7, 3>>
+StakeOrder == <<4, 6, 2, 1, 5, 3>>
+OrderFor(kind) == IF kind = "certificate" THEN CertOrder ELSE StakeOrder
+OtherOrder(kind) == IF kind = "certificate" THEN StakeOrder ELSE CertOrder
+PosIn(ord, v) == IF \E i \in DOMAIN ord : ord[i] = v THEN CHOOSE i \in DOMAIN ord : ord[i] = v ELSE 0
+At(ord, i) == IF i \in DOMAIN ord THEN ord[i] ELSE 0
 
 \* ---------------------------------------------------------------- takePenalty (slash.go:379), integer arithmetic as coded
 Min(a, b) == IF a < b THEN a ELSE b
@@ -154,25 +170,33 @@ ConfirmedOf(s, list, i, kk) ==
         (IF s2.confirmed > s.confirmed THEN <<list[i]>> ELSE <<>>) \o ConfirmedOf(s2, list, i + 1, kk)
 
 \* ---------------------------------------------------------------- one block: builder, raw validator, import
-Block(new) ==
+\* BlockOn: the block on top of the state (vs, q, p); Block: on top of the model's own state
+BlockOn(vs, q, p, new) ==
    LET list == pending \o new
-       s0   == [vals |-> vals, wq |-> wq, pen |-> pen, done |-> {}, pend |-> <<>>, logs |-> <<>>, confirmed |-> 0]
-       seal == ProcessEvidences(vals, wq, pen, list, k)                          \* slashing(): the local list
+       s0   == [vals |-> vs, wq |-> q, pen |-> p, done |-> {}, pend |-> <<>>, logs |-> <<>>, confirmed |-> 0]
+       seal == ProcessEvidences(vs, q, p, list, k)                               \* slashing(): the local list
        conf == ConfirmedOf(s0, list, 1, k)
-       raw  == ProcessEvidences(vals, wq, pen, list, k)                          \* replaySlashing() over the unfiltered list
-       imp  == ProcessEvidences(vals, wq, pen, conf, k)                          \* replaySlashing() over header.SlashData
-   IN /\ last' = [pre |-> [vals |-> vals, wq |-> wq, pen |-> pen], list |-> list, kk |-> k,
+       raw  == ProcessEvidences(vs, q, p, list, k)                               \* replaySlashing() over the unfiltered list
+       imp  == ProcessEvidences(vs, q, p, conf, k)                               \* replaySlashing() over header.SlashData
+   IN /\ last' = [pre |-> [vals |-> vs, wq |-> q, pen |-> p], list |-> list, kk |-> k,
                   seal |-> Proj(seal), raw |-> Proj(raw), imp |-> Proj(imp), logs |-> seal.logs, rawLogs |-> raw.logs]
       /\ vals' = seal.vals /\ wq' = seal.wq /\ pen' = seal.pen
       /\ pending' = seal.pend
       /\ k' = k + 1
       /\ all' = all \o new
       /\ hist' = Append(hist, new)
+Block(new) == BlockOn(vals, wq, pen, new)
 
 \* ---------------------------------------------------------------- case alphabets
 Case(signer, idx, kind, roff, pairs) ==
    [signer |-> signer, idx |-> idx, kind |-> kind, roff |-> roff, ri |-> 1, pairs |-> pairs,
-    target |-> CASE idx = "right" -> signer [] idx = "wrong" -> (signer % NV) + 1 [] OTHER -> 0]
+    \* whom the signer index names in the set the protocol prescribes for the declared kind: "right" = the signer's own
+    \* position there (none if it was no member), "wrongset" = its position in the OTHER look-back set, "wrong" = the
+    \* position of another validator, "oor" = out of range
+    target |-> CASE idx = "right" -> At(OrderFor(kind), PosIn(OrderFor(kind), signer))
+                 [] idx = "wrongset" -> At(OrderFor(kind), PosIn(OtherOrder(kind), signer))
+                 [] idx = "wrong" -> (signer % 4) + 1
+                 [] OTHER -> 0]
 P(src, h) == [src |-> src, h |-> h]
 
 \* every (source, hash) a pair can be made of
@@ -191,7 +215,7 @@ Shapes == { <<P("prevote", "A"), P("prevote", "B")>>,                 \* real eq
             <<P("prevote", "A")>>,                                    \* a single pair
             <<P("prevote", "A"), P("prevote", "B"), P("forged", "A")>>,
             <<P("certificate", "A"), P("certificate", "B"), P("certificate", "A")>> }
-VaryCases == { Case(sg, ix, kd, ro, sh) : sg \in {1, 2, 3}, ix \in {"right", "wrong", "oor"}, kd \in {"prevote", "certificate"},
+VaryCases == { Case(sg, ix, kd, ro, sh) : sg \in {1, 2, 3}, ix \in {"right", "wrong", "oor", "wrongset"}, kd \in {"prevote", "certificate"},
                                            ro \in {-4, -1, 0, 1}, sh \in Shapes }
 ListCases == { Case(2, "right", "prevote", 0, <<P("prevote", "A"), P("prevote", "B")>>),
                Case(2, "right", "precommit", 0, <<P("precommit", "A"), P("precommit", "B")>>),
@@ -209,14 +233,17 @@ ListCases == { Case(2, "right", "prevote", 0, <<P("prevote", "A"), P("prevote", 
                Case(1, "wrong", "prevote", 0, <<P("prevote", "A"), P("prevote", "B")>>),      \* v1's signatures, v2's index
                Case(1, "right", "certificate", 0, <<P("certificate", "A"), P("otherkey", "B")>>) }
 
-Cases == IF Alphabet = "pairs" THEN PairCases \cup VaryCases ELSE ListCases
+\* validator-set changes: a genuine equivocation of every identity (incl. the new validator v6 and the removed v5, v7), for
+\* every kind, with the index from the prescribed set and with the index from the other look-back set
+SetCases == { Case(sg, ix, kd, 0, <<P(kd, "A"), P(kd, "B")>>) : sg \in 1..NV, ix \in {"right", "wrongset"}, kd \in {"prevote", "precommit", "certificate"} }
+Cases == IF Alphabet = "pairs" THEN PairCases \cup VaryCases \cup SetCases ELSE IF Alphabet = "sets" THEN SetCases ELSE ListCases
 
 SeqsUpTo(S, n) == UNION { [1..m -> S] : m \in 0..n }
 
 Init == /\ vals = InitVals /\ wq = InitWq /\ pen = 0 /\ k = 0 /\ pending = <<>>
         /\ last = [kk |-> -1] /\ all = <<>> /\ hist = <<>>
 
-Next == \/ k = 0 /\ \E new \in SeqsUpTo(Cases, MaxEv1) : (Alphabet = "pairs" => Len(new) = 1) /\ Block(new)
+Next == \/ k = 0 /\ \E new \in SeqsUpTo(Cases, MaxEv1) : (Alphabet \in {"pairs", "sets"} => Len(new) = 1) /\ Block(new)
         \/ k = 1 /\ Blocks = 2 /\ \E new \in SeqsUpTo(Cases, MaxEv2) : Block(new)
 Spec == Init /\ [][Next]_vars
 
@@ -232,7 +259,7 @@ Honest(v, cs) == LET vs == VotesOf(v, cs) IN
    \A x \in vs : /\ (x.kd # "nextindex" => Cardinality(HashesOf(vs, x.kd, x.r, x.ri)) <= 1 /\ x.h # "E")
                  /\ (x.kd = "nextindex" => Cardinality(HashesOf(vs, x.kd, x.r, x.ri)) <= 2)
 \* "Evidence of two different same-kind votes by one validator in one round/index"
-RealEquivocation(c, kk) == /\ c.roff = kk /\ c.target = c.signer /\ c.kind \in {"prevote", "precommit", "certificate"}
+RealEquivocation(c, kk) == /\ c.roff = kk /\ c.target = c.signer /\ c.target # 0 /\ c.kind \in {"prevote", "precommit", "certificate"}
                            /\ Len(c.pairs) = 2 /\ c.pairs[1].src = c.kind /\ c.pairs[2].src = c.kind
                            /\ c.pairs[1].h # c.pairs[2].h /\ c.pairs[1].h # "E" /\ c.pairs[2].h # "E"
 
@@ -264,6 +291,8 @@ RealEquivocationAccepted ==
    Judged => \A i \in DOMAIN last.list : RealEquivocation(last.list[i], last.kk) =>
                  \/ \A p \in Paths : LET post == PostOf(p) v == last.list[i].target IN
                                        post.vals[v].expelled /\ post.vals[v].status = 0 /\ Taken(last.pre, post, v) > 0
+                 \* known finding: a validator removed since the look-back block (its withdrawal still pending) is not penalised
+                 \/ (Known /\ ~last.pre.vals[last.list[i].target].exists)
                  \/ Cex("RealEquivocationAccepted")
 \* "penalises that validator once"
 SlashedOnce ==
